@@ -892,7 +892,7 @@ SHARED_OPTIONS = ["serde", "connect_timeout", "timeout", "no_delay", "socket_mod
                   "default_noreply", "allow_unicode_keys", "encoding", "tls_context"]
 
 
-def verify_create_client(E):
+def verify_create_client(E, prop="C16"):
     """PooledClient._create_client builds the inner client with the pool's own configuration (C16)."""
     q = PC + "._create_client"
     st = State()
@@ -909,7 +909,7 @@ def verify_create_client(E):
     for o in E.run_function(q, st, [], {}, selfv=me):
         calls = o.st.ghost["ctor"]
         if o.kind != "return" or len(calls) != 1:
-            E.oblige("C16/%s/constructs-one-inner-client" % short(q), o.st, z3.BoolVal(False), func=q, kind="forward")
+            E.oblige("%s/%s/constructs-one-inner-client" % (prop, short(q)), o.st, z3.BoolVal(False), func=q, kind="forward")
             continue
         b = State()
         evs = E.bind_args(cfi, b, calls[0][0], calls[0][1], OpaqueV(tag="self"), None)
@@ -917,10 +917,10 @@ def verify_create_client(E):
         for opt in SHARED_OPTIONS + ["server"]:
             v = env.get(opt)
             ok = isinstance(v, OpaqueV) and v.t.eq(fields[opt].t)
-            E.oblige("C16/%s/inner-client-gets-the-configured-%s" % (short(q), opt), o.st, z3.BoolVal(bool(ok)), func=q, kind="forward",
+            E.oblige("%s/%s/inner-client-gets-the-configured-%s" % (prop, short(q), opt), o.st, z3.BoolVal(bool(ok)), func=q, kind="forward",
                      meta={"option": opt})
         v = env.get("ignore_exc")
-        E.oblige("C16/%s/inner-client-raises(ignore_exc=False:the-wrapper-decides)" % short(q), o.st,
+        E.oblige("%s/%s/inner-client-raises(ignore_exc=False:the-wrapper-decides)" % (prop, short(q)), o.st,
                  z3.BoolVal(isinstance(v, BoolV) and z3.is_false(z3.simplify(v.t))), func=q, kind="forward")
     del E.contracts[CL]
 
